@@ -20,7 +20,7 @@
                               search structure has the shape (sizes, parameters) of a fresh one
 
   Restriction on readers: the histories AFTER the reset may use `readFrom` only with error-free
-  readers (`FillR`: no error codes, no `(0, nil)` answers, enough answers for the payload).  For a
+  readers (`FillR`: no error codes, every answer offers a byte, enough answers for the payload).  For a
   reader that fails in the middle the number of bytes accepted before the failure depends on
   `cap` (`PBuf.readFrom_faulty_depends_on_cap` in LzProofs/PBufProps.lean), and `cap` is exactly
   what a reset parser and a fresh one may differ in.  The history BEFORE the reset is unrestricted.
